@@ -81,7 +81,15 @@ def make_unitcell(cell):
         mag = [1.5 if i % 2 == 0 else -1.5 for i in range(n)]
     elif cell["mag"] == "noncol":
         mag = [[0.5, 0.0, 1.25] if i % 2 == 0 else [0.0, 0.25, -1.25] for i in range(n)]
-    return PhonopyAtoms(symbols=symbols, cell=np.array(cr["lattice"], dtype=float),
+    lat = np.array(cr["lattice"], dtype=float)
+    if cell.get("generic"):
+        # a rigid rotation and an irrational scale: every lattice entry has a full mantissa, so the
+        # rounding of the 15-decimal text is really exercised (error classes of SaveLoadTrace)
+        from harness import xtal
+        lat = (lat @ xtal.random_rotation(np.random.default_rng(12345))) * (1.0 + np.sqrt(2.0) / 40.0)
+        if mag is not None and np.ndim(mag) == 2:
+            pass  # moments are kept as given: the magnetic space group may be lower, which is fine here
+    return PhonopyAtoms(symbols=symbols, cell=lat,
                         scaled_positions=np.array(cr["pos"], dtype=float), masses=masses, magnetic_moments=mag)
 
 
@@ -262,8 +270,22 @@ class World:
         if dset is not None:
             ph.dataset = dset
             self.src_ds["yaml"] = ph.dataset
+        big = bool(cfg.get("big"))
+        if big and dset is not None:
+            # values towards the ends of the printable range in the saved file
+            d, f, e = disp_forces(ph.dataset)
+            if f is not None:
+                f = f.copy()
+                f[0, 0] = [99999.5, -12345.25, 1e-9]
+                f[-1, -1] = [-100000.5, 0.123456789, 1234567.75]
+                ph.forces = f
+                self.src_ds["yaml"] = ph.dataset
         if o["fc"] != "none":
-            ph.force_constants = random_fc(ph, rng, o["fc"])
+            fc = random_fc(ph, rng, o["fc"])
+            if big:
+                fc[0, 0] = [[1234567.75, -999999.5, 1e-9], [-1e-9, 100000.25, -0.987654321], [0.0, -0.0, 99999.5]]
+                fc[-1, -1, 1] = [-100000.5, 10000.125, 0.03125]
+            ph.force_constants = fc
             self.src_fc["yaml"] = ph.force_constants.copy()
         if o["nac"]["kind"] != "none":
             nac = iso_nac(ph, 1.25, 2.5)
@@ -361,15 +383,23 @@ class World:
         comp = {"F": False, "T": True, "xz": "xz"}[self.cfg["comp"]]
         kw = self.populate()
         self.load_kw = kw
-        fn = ph.save("c16.yaml", settings=self.settings(), compression=comp)
+        try:
+            fn = ph.save("c16.yaml", settings=self.settings(), compression=comp)
+        except Exception as e:  # save() must not fail on a valid object: reported as a violation by the caller
+            self.filename, self.container, self.text = "c16.yaml", "none", ""
+            self.save_error = e
+            return None, e
+        self.save_error = None
         self.filename = fn
-        if fn.endswith(".xz"):
+        with open(fn, "rb") as f:
+            raw = f.read()
+        if raw[:6] == b"\xfd7zXZ\x00":
             import lzma
-            with lzma.open(fn, "rt") as f:
-                self.text = f.read()
+            self.container = "xz"
+            self.text = lzma.decompress(raw).decode()
         else:
-            with open(fn) as f:
-                self.text = f.read()
+            self.container = "plain"
+            self.text = raw.decode(errors="replace")
         try:
             with contextlib.redirect_stdout(io.StringIO()):
                 ph2 = phonopy.load(fn, **kw)
@@ -384,7 +414,7 @@ def ulp(x):
     return float(np.spacing(np.abs(x).max())) if np.size(x) else 0.0
 
 
-def err_class(a, b, decimals):
+def err_class(a, b, decimals, extra=0.0):
     """integer error class of |a-b| against the half unit of the last written place
     (plus one ulp of the magnitude: text with 15+ decimals holds 16-17 significant digits).
     0 exact, 1 within, 2.. multiples (capped at 9)."""
@@ -397,7 +427,7 @@ def err_class(a, b, decimals):
     d = float(np.abs(a - b).max())
     if d == 0.0:
         return 0
-    tol = 0.5 * 10.0 ** (-decimals) + 2 * ulp(a)
+    tol = 0.5 * 10.0 ** (-decimals) + 2 * ulp(a) + extra
     return int(min(9, np.ceil(d / tol)))
 
 
@@ -411,9 +441,10 @@ def nearest_source(value, cands, close=1e-5):
         d = float(np.abs(arr - value).max()) if arr.size else 0.0
         if bd is None or d < bd:
             best, bd = name, d
-    if bd is None or bd > close:
+    scale = max(1.0, float(np.abs(value).max())) if np.size(value) else 1.0
+    if bd is None or bd > close * scale:
         return "unknown", None
-    return best, bd
+    return best, bd / scale
 
 
 # ----------------------------------------------------------------------------
@@ -578,10 +609,13 @@ def project(world, ph2, err, wr=None):
         if src == "unknown":
             q["fc"] = 9
         elif src.startswith("produced"):
-            q["fc"] = 0 if dist < 1e-9 else 9
+            q["fc"] = 0 if dist < 1e-10 else 9  # (relative to the largest element) recomputed from the same numbers
         else:
             dec = 15 if src in ("yaml", "FORCE_CONSTANTS") or (src == "fcfile" and cfg["args"]["fcFile"].startswith("txt")) else 99
-            q["fc"] = err_class(cands[src], fc2, dec)
+            # compact -> full goes through the (Cartesian) translation operators of the code: identity matrices up
+            # to rounding on a generic lattice, i.e. a relative noise of a few 1e-16 per element
+            converted = world.src_fc[src].shape != fc2.shape
+            q["fc"] = err_class(cands[src], fc2, dec, extra=(1e-13 * float(np.abs(fc2).max()) if converted else 0.0))
     obs["fc"] = fcobs
     # NAC
     nacobs = dict(src="none", method="none", factor="none")
@@ -617,18 +651,23 @@ def project(world, ph2, err, wr=None):
 def written(text):
     """What the saved file contains, read off the text without phonopy: the abstract yaml record."""
     import yaml as pyyaml
-    y = pyyaml.load(text, Loader=getattr(pyyaml, 'CSafeLoader', pyyaml.SafeLoader))
+    try:
+        y = pyyaml.load(text, Loader=getattr(pyyaml, 'CSafeLoader', pyyaml.SafeLoader))
+    except Exception:
+        y = None
+    if not isinstance(y, dict):
+        y = {"__unparsable__": True}
     w = dict(calc="none", ds=dict(type=0, forces=False, energies=False), fc="none",
              nac=dict(born=False, eps=False, method="none", factor=False))
-    hdr = y.get("phonopy", {})
+    hdr = y.get("phonopy") or {}
     if "calculator" in hdr:
         w["calc"] = str(hdr["calculator"])
-    if "displacements" in y:
-        d0 = y["displacements"][0]
+    if "displacements" in y and y["displacements"] and all(isinstance(d, dict) for d in y["displacements"]):
         w["ds"] = dict(type=1, forces=all("forces" in d for d in y["displacements"]),
                        energies=all("supercell_energy" in d for d in y["displacements"]))
-        assert isinstance(d0, dict)
-    elif "dataset" in y:
+    elif "displacements" in y:
+        w["ds"] = dict(type=9, forces=False, energies=False)  # not the documented type-1 layout
+    elif "dataset" in y and isinstance(y["dataset"], dict):
         w["ds"] = dict(type=2 if "displacements" in y["dataset"] else 9, forces="forces" in y["dataset"],
                        energies="supercell_energies" in y["dataset"])
     if "force_constants" in y:
